@@ -289,7 +289,13 @@ func run(ck *checks.Check, tier string, seed int64) int {
 	for _, sig := range sigs {
 		vs := bySig[sig]
 		// smallest case first
-		sort.SliceStable(vs, func(i, j int) bool { return len(vs[i].Case) < len(vs[j].Case) })
+		nd := func(v mc.Violation) bool { return ck.UnownedNondet != nil && ck.UnownedNondet(v.Sub, v.Case) }
+		sort.SliceStable(vs, func(i, j int) bool {
+			if a, b := nd(vs[i]), nd(vs[j]); a != b {
+				return !a // prefer cases whose replay is fully owned by the harness
+			}
+			return len(vs[i].Case) < len(vs[j].Case)
+		})
 		v := vs[0]
 		if f, ok := known[sig]; ok {
 			fmt.Printf("KNOWN-FINDING: property=%s %s [%s]\n", ck.ID, f.What, sig)
@@ -305,17 +311,31 @@ func run(ck *checks.Check, tier string, seed int64) int {
 		}
 		// determinism gate: the recorded case must fail again, with the same signature, on every re-execution
 		if v.Sub != "worker-crash" && v.Sub != "post" && ck.Replay != nil {
-			for k := 0; k < 3; k++ {
+			need, tries := 3, 3
+			if ck.UnownedNondet != nil && ck.UnownedNondet(v.Sub, v.Case) {
+				need, tries = 1, 8 // map iteration order inside the code under test is not owned by the harness
+			}
+			okCount := 0
+			var lastOut []byte
+			crashed := false
+			for k := 0; k < tries && okCount < need; k++ {
 				cmd := exec.Command(os.Args[0], "replay-quiet", ck.ID, path)
 				cmd.Env = append(os.Environ(), "GOTRACEBACK=single")
 				out, err := cmd.CombinedOutput()
-				if err == nil || !strings.Contains(string(out), "SIG="+sig+"\n") {
-					if ee, ok := err.(*exec.ExitError); ok && ee.ExitCode() > 2 {
-						break // the replay itself crashes the process: accept (crash is reproducible by construction)
-					}
-					fmt.Printf("HARNESS-ERROR: property=%s recorded case did not reproduce deterministically (signature %s, file %s): harness nondeterministic; no verdict\n%s\n", ck.ID, sig, path, tail(string(out), 1500))
-					return 2
+				lastOut = out
+				if ee, ok := err.(*exec.ExitError); ok && ee.ExitCode() > 2 {
+					crashed = true // the replay itself crashes the process: reproducible by construction
+					break
 				}
+				if err != nil && strings.Contains(string(out), "SIG="+sig+"\n") {
+					okCount++
+				} else if need == tries {
+					break
+				}
+			}
+			if !crashed && okCount < need {
+				fmt.Printf("HARNESS-ERROR: property=%s recorded case did not reproduce (%d of %d needed re-executions failed with signature %s, file %s): harness nondeterministic; no verdict\n%s\n", ck.ID, okCount, need, sig, path, tail(string(lastOut), 1500))
+				return 2
 			}
 		}
 		fmt.Printf("VIOLATION property=%s replay=%s\n", ck.ID, path)
